@@ -28,9 +28,9 @@ theorem good_oprMid {e : Env} {as : State} {i : Nat} {w : W} (h : Good e as i w)
   have g3 := good_upd g2 (fun nd => { nd with txHashes := (e.prop p).txs }) rfl rfl rfl rfl rfl rfl rfl rfl rfl id rfl
   have g4 := good_processMissingTx g3
   -- the fields of that world
-  obtain ⟨a1, a2, a3, a4, a5, a6, a7, a8, a9, a10, a11, _⟩ := processMissingTx_frame e
+  obtain ⟨a1, a2, a3, a4, a5, a6, a7, a8, a9, a10, a11, _, _⟩ := processMissingTx_frame e
     ((extendTimer e (w.upd fun nd => { nd with lastProposal := (e.prop p).txs }) 2).upd fun nd => { nd with txHashes := (e.prop p).txs })
-  obtain ⟨f1, f2, f3, f4, f5, f6, f7, f8, f9, f10, f11, _⟩ := extendTimer_fields e (w.upd fun nd => { nd with lastProposal := (e.prop p).txs }) 2
+  obtain ⟨f1, f2, f3, f4, f5, f6, f7, f8, f9, f10, f11, _, _⟩ := extendTimer_fields e (w.upd fun nd => { nd with lastProposal := (e.prop p).txs }) 2
   obtain ⟨w4, hw4⟩ : ∃ w4, w4 = processMissingTx e ((extendTimer e (w.upd fun nd => { nd with lastProposal := (e.prop p).txs }) 2).upd
     fun nd => { nd with txHashes := (e.prop p).txs }) := ⟨_, rfl⟩
   rw [← hw4] at a1 a2 a3 a4 a5 a6 a7 a8 a9 a10 a11 g4
@@ -53,7 +53,7 @@ theorem good_oprMid {e : Env} {as : State} {i : Nat} {w : W} (h : Good e as i w)
       | s => s).length := by rw [List.length_map, rn.lens.1]; exact hx
   have hcs : ∀ nd' : Node, nd'.commit = w.nd.commit → nd'.my = w.nd.my → nd'.commitSent = false := by
     intro nd' h1 h2; unfold Node.commitSent at hnc ⊢; rw [h1, h2]; exact hnc
-  refine ⟨⟨g4.g, ⟨rn.my, ?_, rn.chain, rn.height, ?_, rn.pidx, ?_, rn.commit, rn.cv, rn.lastCv, rn.cache, ?_⟩, g4.outs, g4.st, h.lt⟩,
+  refine ⟨⟨g4.g, ⟨rn.my, ?_, rn.chain, rn.height, ?_, rn.pidx, ?_, rn.commit, rn.cv, rn.lastCv, rn.cache, ?_⟩, g4.outs, g4.blk, g4.st, h.lt⟩,
     by show w4.nd.blockProcessed = false; rw [e_bp]; exact hbp, hcs _ e_commit e_my, e_my, e_pidx, e_bi, e_view⟩
   · simpa [W.upd] using rn.lens
   · left
